@@ -119,7 +119,7 @@ func Harness_C12_tcp() {
 // buffer, the 16-bit length prefix): a large datagram followed by a small one crosses the
 // relay intact in each direction. Four bytes of the large datagram are symbolic.
 func Harness_C12_udp_large() {
-	n := []int{1472, 32767, 32768, 32769, 65507, 65535}[verif_Choose(6)]
+	n := []int{1472, 8191, 8192, 32767, 32768, 32769, 65507, 65535}[verif_Choose(8)]
 	big := make([]byte, n)
 	for i := range big {
 		big[i] = byte(i*5 + 1)
@@ -128,13 +128,18 @@ func Harness_C12_udp_large() {
 	small := []byte{verif_Byte(), 0x5A}
 	if verif_Bool() {
 		// UDP -> tunnel
-		udp := &verifDgramConn{In: [][]byte{big, small}}
+		// the large datagram first, last, or between two small ones (a relay that treats large
+		// datagrams specially must still keep them in line behind what is already batched)
+		seq := [][][]byte{{big, small}, {small, big}, {small, big, small}}[verif_Choose(3)]
+		udp := &verifDgramConn{In: seq}
 		out := &verifSink{}
 		tunnel := &verifConn{In: &verifReader{}, Out: out}
 		UDP(udp, tunnel, nil)
-		want := append([]byte{byte(n >> 8), byte(n)}, big...)
-		want = append(want, 0, 2)
-		want = append(want, small...)
+		var want []byte
+		for _, d := range seq {
+			want = append(want, byte(len(d)>>8), byte(len(d)))
+			want = append(want, d...)
+		}
 		verif_Assert("C12.large.to_tunnel.length", len(out.Buf) == len(want))
 		verif_Assert("C12.large.to_tunnel.stream", verif_BytesEq(out.Buf, want))
 		verif_Cover("C12.large.to_tunnel")
